@@ -5,9 +5,9 @@ package main
 
 import (
 	"bytes"
-	"encoding/json"
 	"fmt"
 	"math"
+	"math/big"
 	"regexp"
 	"sort"
 	"strconv"
@@ -87,6 +87,50 @@ func textOracle(s *kit.Summary, h history, m *vegeta.Metrics, rows [][3]string, 
 	}
 	if f := strings.Split(rows[0][2], ", "); len(f) != 3 || f[0] != strconv.Itoa(len(h.Results)) {
 		bad("text_requests", "text report: request count cell", strconv.Itoa(len(h.Results)), rows[0][2])
+	}
+	// durations are shown rounded to the next finer unit (at most 1% off), floats with two decimals
+	t := reference(h.Results)
+	durOK := func(cell string, want int64) bool {
+		d, err := time.ParseDuration(cell)
+		if err != nil {
+			return false
+		}
+		diff := int64(d) - want
+		if diff < 0 {
+			diff = -diff
+		}
+		return diff <= want/100+1
+	}
+	fltOK := func(cell string, want float64) bool {
+		f, err := strconv.ParseFloat(strings.TrimSuffix(cell, "%"), 64)
+		return err == nil && math.Abs(f-want) <= 0.0051+1e-9*math.Abs(want)
+	}
+	if t.n > 0 {
+		dur, wait := t.latest-t.earliest, t.end-t.latest
+		if f := strings.Split(rows[1][2], ", "); len(f) != 3 || !durOK(f[0], dur+wait) || !durOK(f[1], dur) || !durOK(f[2], wait) {
+			bad("text_durations", "text report: [total, attack, wait] cells differ from duration+wait, duration, wait", fmt.Sprint(time.Duration(dur+wait), time.Duration(dur), time.Duration(wait)), rows[1][2])
+		}
+		mean := new(big.Int).Quo(t.sumLat, big.NewInt(t.n)).Int64()
+		if f := strings.Split(rows[2][2], ", "); len(f) != 7 || !durOK(f[0], t.minLat) || !durOK(f[1], mean) || !durOK(f[6], t.maxLat) {
+			bad("text_latencies", "text report: [min, mean, …, max] cells differ from the latency minimum, mean, maximum", fmt.Sprint(time.Duration(t.minLat), time.Duration(mean), time.Duration(t.maxLat)), rows[2][2])
+		}
+		fin, _ := new(big.Float).SetInt(t.sumIn).Float64()
+		fout, _ := new(big.Float).SetInt(t.sumOut).Float64()
+		if f := strings.Split(rows[3][2], ", "); len(f) != 2 || f[0] != t.sumIn.String() || !fltOK(f[1], fin/float64(t.n)) {
+			bad("text_bytes", "text report: bytes-in cells differ from total and mean", fmt.Sprint(t.sumIn, fin/float64(t.n)), rows[3][2])
+		}
+		if f := strings.Split(rows[4][2], ", "); len(f) != 2 || f[0] != t.sumOut.String() || !fltOK(f[1], fout/float64(t.n)) {
+			bad("text_bytes", "text report: bytes-out cells differ from total and mean", fmt.Sprint(t.sumOut, fout/float64(t.n)), rows[4][2])
+		}
+		if !strings.HasSuffix(rows[5][2], "%") || !fltOK(rows[5][2], 100*float64(t.succ)/float64(t.n)) {
+			bad("text_success", "text report: success cell differs from the percentage of successful results", fmt.Sprint(100*float64(t.succ)/float64(t.n)), rows[5][2])
+		}
+		if f := strings.Split(rows[0][2], ", "); dur > 0 && len(f) == 3 {
+			secs, tot := float64(dur)/1e9, float64(dur+wait)/1e9
+			if !fltOK(f[1], float64(t.n)/secs) || !fltOK(f[2], float64(t.succ)/tot) {
+				bad("text_rates", "text report: rate / throughput cells differ from requests/duration, successes/(duration+wait)", fmt.Sprint(float64(t.n)/secs, float64(t.succ)/tot), rows[0][2])
+			}
+		}
 	}
 	counts := map[string]int{}
 	for _, x := range h.Results {
@@ -248,8 +292,10 @@ func checkLoop(s *kit.Summary, st *kit.Stream, h history, lines [][]byte) {
 	var ks []int
 	var reps []string
 	for _, ln := range lines {
-		var m vegeta.Metrics
-		if err := json.Unmarshal(ln, &m); err != nil {
+		m, err := parseJSONReport(ln)
+		if err != nil {
+			s.Violate(kit.Violation{Kind: "report_json_layout", What: "a periodic JSON report does not have the documented layout: " + err.Error(),
+				Input: h, Observed: string(ln)})
 			return
 		}
 		k := int(m.Requests)
@@ -259,7 +305,7 @@ func checkLoop(s *kit.Summary, st *kit.Stream, h history, lines [][]byte) {
 			return
 		}
 		ks = append(ks, k)
-		l := lineOf(&m)
+		l := lineOf(m)
 		reps = append(reps, l)
 		// the property's clause: a periodic report equals the report over the prefix read so far
 		if _, lib := runImpl(history{Results: h.Results[:k]}); lib != l {
